@@ -8,6 +8,7 @@ import VM.Proofs.PipelineProof
 import VM.Generated.SwaggerSchema
 import VM.Properties.C01
 import VM.Properties.C10
+import VM.Impl.SpecModel
 namespace VM.C02
 open VM Impl Spec Generated Sw
 
@@ -114,6 +115,13 @@ theorem C02_accepted_is_schema_valid_partial (cont : Bool) (s : Stages) (O : Ora
   have h := C02_pipeline cont s hacc
   rw [hpass] at h
   rw [← (C02_schema_pass_asIs_partial O hO n "" doc hdoc).2, h]; rfl
+
+/-- for the model of the whole of `Validate`: whatever the other stages say, in either mode, a document it accepts has passed
+    the schema pass (the model of the validator tree, code as it is, with the Swagger strictness options, over the regenerated
+    Swagger 2.0 schema term) without an error -/
+theorem C02_whole_model_accepted_passed_schema (cont : Bool) (O : Oracles) (raw : JVal) (v0 v : View)
+    (hacc : (specModel cont O raw v0 v).1.errors = []) : (schemaPassRes O raw).errors = [] :=
+  C02_pipeline cont (modelStages O raw v0 v) hacc
 
 /-! ### witness: the open null early exit shows in the Swagger schema itself -/
 
